@@ -177,29 +177,32 @@ def startNewWork (σ : Static) (q : WQ) (newGroups newStreams : List Nat) : WQ :
     (fun q g => startGroup σ { q with rootGroups := oinsert q.rootGroups g } g) q
   newStreams.foldl (fun q s => startStream { q with rootStreams := oinsert q.rootStreams s } s) q
 
+/-- The tail of `_add_group`: create the node, then make the group a new root or attach it to
+its parent's node.  The accumulator is `(queue, new_root_groups)`. -/
+def attachGroup (σ : Static) (hasParentTask : Bool) (g : Nat) (r : WQ × List Nat) : WQ × List Nat :=
+  let q : WQ := { r.1 with groupNodes := aset r.1.groupNodes g {} }
+  match σ.parent g with
+  | none => if hasParentTask then (q, r.2) else (q, r.2 ++ [g])
+  | some p =>
+    match alookup q.groupNodes p with
+    | some pn =>
+      ({ q with groupNodes := aset q.groupNodes p { pn with children := pn.children ++ [g] } }, r.2)
+    | none => (q, r.2)
+
 /-- `_add_group(group, group_set, new_root_groups, visited, parent_task)`; the accumulator is
 `(queue, new_root_groups, visited)`. -/
 def addGroup (σ : Static) (groupSet : List Nat) (hasParentTask : Bool) :
     Nat → Nat → WQ × List Nat × List Nat → WQ × List Nat × List Nat
   | 0, _, acc => acc
-  | fuel + 1, g, (q, newRoots, visited) =>
-    if g ∈ visited then (q, newRoots, visited) else
-    let visited := g :: visited
-    let (q, newRoots, visited) :=
+  | fuel + 1, g, acc =>
+    if g ∈ acc.2.2 then acc else
+    let acc1 : WQ × List Nat × List Nat := (acc.1, acc.2.1, g :: acc.2.2)
+    let acc2 :=
       match σ.parent g with
-      | some p =>
-        if p ∈ groupSet then addGroup σ groupSet hasParentTask fuel p (q, newRoots, visited)
-        else (q, newRoots, visited)
-      | none => (q, newRoots, visited)
-    let q := { q with groupNodes := aset q.groupNodes g {} }
-    match σ.parent g with
-    | none => if hasParentTask then (q, newRoots, visited) else (q, newRoots ++ [g], visited)
-    | some p =>
-      match alookup q.groupNodes p with
-      | some pn =>
-        ({ q with groupNodes := aset q.groupNodes p { pn with children := pn.children ++ [g] } },
-          newRoots, visited)
-      | none => (q, newRoots, visited)
+      | some p => if p ∈ groupSet then addGroup σ groupSet hasParentTask fuel p acc1 else acc1
+      | none => acc1
+    let r := attachGroup σ hasParentTask g (acc2.1, acc2.2.1)
+    (r.1, r.2, acc2.2.2)
 
 /-- `_add_groups` -/
 def addGroups (σ : Static) (q : WQ) (groups : List Nat) (hasParentTask : Bool) : WQ × List Nat :=
@@ -207,15 +210,17 @@ def addGroups (σ : Static) (q : WQ) (groups : List Nat) (hasParentTask : Bool) 
     (fun acc g => addGroup σ groups hasParentTask (groups.length + 1) g acc) (q, [], [])
   (r.1, r.2.1)
 
+/-- One iteration of the loop of `_add_task`. -/
+def addTaskStep (σ : Static) (t : Nat) (q : WQ) (g : Nat) : WQ :=
+  match alookup q.groupNodes g with
+  | some n =>
+    let n' : GroupNode := { n with tasks := oinsert n.tasks t, pending := n.pending + 1 }
+    let q : WQ := { q with groupNodes := aset q.groupNodes g n' }
+    if g ∈ q.rootGroups then startTask σ q t else q
+  | none => q
+
 /-- `_add_task` -/
-def addTask (σ : Static) (q : WQ) (t : Nat) : WQ :=
-  (σ.tgroups t).foldl (fun q g =>
-    match alookup q.groupNodes g with
-    | some n =>
-      let n' : GroupNode := { n with tasks := oinsert n.tasks t, pending := n.pending + 1 }
-      let q := { q with groupNodes := aset q.groupNodes g n' }
-      if g ∈ q.rootGroups then startTask σ q t else q
-    | none => q) q
+def addTask (σ : Static) (q : WQ) (t : Nat) : WQ := (σ.tgroups t).foldl (addTaskStep σ t) q
 
 /-- `_add_streams`: returns the streams that become roots. -/
 def addStreams (q : WQ) (streams : List Nat) (parentTask : Option Nat) : WQ × List Nat :=
@@ -227,19 +232,20 @@ def addStreams (q : WQ) (streams : List Nat) (parentTask : Option Nat) : WQ × L
       ({ q with taskNodes := aset q.taskNodes t { tn with childStreams := tn.childStreams ++ streams } }, [])
     | none => (q, [])
 
-/-- `_maybe_integrate_work` -/
+/-- `_maybe_integrate_work`: `(queue, new root groups, new root streams)` -/
 def integrateWork (σ : Static) (q : WQ) (work : Option Work) (parentTask : Option Nat) :
     WQ × List Nat × List Nat :=
   match work with
   | none => (q, [], [])
   | some w =>
-    let (q, newGroups) :=
+    let r1 : WQ × List Nat :=
       if w.groups.isEmpty then (q, []) else addGroups σ q w.groups parentTask.isSome
-    let q := w.tasks.foldl (addTask σ) q
-    let (q, newStreams) := if w.streams.isEmpty then (q, []) else addStreams q w.streams parentTask
-    (q, newGroups, newStreams)
+    let q2 := w.tasks.foldl (addTask σ) r1.1
+    let r3 : WQ × List Nat := if w.streams.isEmpty then (q2, []) else addStreams q2 w.streams parentTask
+    (r3.1, r1.2, r3.2)
 
-/-- `_prune_empty_groups(new_groups, non_empty_new_groups)` -/
+/-- `_prune_empty_groups(new_groups, non_empty_new_groups)`; `pruneStep` is one iteration of
+its loop. -/
 def prune : Nat → List Nat → WQ × List Nat → WQ × List Nat
   | 0, _, st => st
   | fuel + 1, gs, st =>
@@ -261,17 +267,20 @@ def removeTask (σ : Static) (q : WQ) (t : Nat) : WQ :=
     | none => gn) q.groupNodes
   { q with groupNodes := gn, taskNodes := aerase q.taskNodes t }
 
+/-- The first loop of `_remove_group`: drop the tasks that no longer belong to any group. -/
+def dropOrphanTask (σ : Static) (q : WQ) (t : Nat) : WQ :=
+  if (σ.tgroups t).all (fun tg => (alookup q.groupNodes tg).isNone) then removeTask σ q t else q
+
 /-- `_remove_group(group, group_node)` -/
 def removeGroup (σ : Static) : Nat → WQ → Nat → GroupNode → WQ
   | 0, q, _, _ => q
   | fuel + 1, q, g, n =>
-    let q := { q with groupNodes := aerase q.groupNodes g }
-    let q := n.tasks.foldl (fun q t =>
-      if (σ.tgroups t).all (fun tg => (alookup q.groupNodes tg).isNone) then removeTask σ q t else q) q
+    let q1 : WQ := { q with groupNodes := aerase q.groupNodes g }
+    let q2 := n.tasks.foldl (dropOrphanTask σ) q1
     n.children.foldl (fun q c =>
       match alookup q.groupNodes c with
       | some cn => removeGroup σ fuel q c cn
-      | none => q) q
+      | none => q) q2
 
 /-- `_finish_group_failure` -/
 def finishGroupFailure (σ : Static) (q : WQ) (g : Nat) (n : GroupNode) : WQ × WQEvent :=
@@ -283,69 +292,83 @@ def groupEvents (g : Nat) (values : List GVal) (newGroups newStreams : List Nat)
   (if values.isEmpty then [] else [WQEvent.groupValues g values]) ++
     [WQEvent.groupSuccess g newGroups newStreams]
 
-/-- `_finish_group_success`: returns `(queue, values event?, success event, new groups, new streams)` -/
+/-- One iteration of the loop of `_finish_group_success` over the group's tasks: collect the
+value and the child streams of a task and remove it.  `(queue, values, new streams)`. -/
+def collectTask (σ : Static) (acc : WQ × List GVal × List Nat) (t : Nat) : WQ × List GVal × List Nat :=
+  match alookup acc.1.taskNodes t with
+  | some tn =>
+    (removeTask σ acc.1 t,
+      (match tn.value with | some v => acc.2.1 ++ [v] | none => acc.2.1),
+      acc.2.2 ++ tn.childStreams)
+  | none => acc
+
+/-- `_finish_group_success`: returns `(queue, events, new groups, new streams)` -/
 def finishGroupSuccess (σ : Static) (q : WQ) (g : Nat) (n : GroupNode) :
     WQ × List WQEvent × List Nat × List Nat :=
-  let q := { q with groupNodes := aerase q.groupNodes g }
-  let (q, values, newStreams) := n.tasks.foldl
-    (fun (acc : WQ × List GVal × List Nat) t =>
-      let (q, values, newStreams) := acc
-      match alookup q.taskNodes t with
-      | some tn =>
-        let values := match tn.value with | some v => values ++ [v] | none => values
-        (removeTask σ q t, values, newStreams ++ tn.childStreams)
-      | none => acc) (q, [], [])
-  let (q, newGroups) := pruneEmpty q n.children
-  let q := { q with rootGroups := oerase q.rootGroups g }
-  (q, groupEvents g values newGroups newStreams, newGroups, newStreams)
+  let q1 : WQ := { q with groupNodes := aerase q.groupNodes g }
+  let c := n.tasks.foldl (collectTask σ) (q1, [], [])
+  let pr := pruneEmpty c.1 n.children
+  let q3 : WQ := { pr.1 with rootGroups := oerase pr.1.rootGroups g }
+  (q3, groupEvents g c.2.1 pr.2 c.2.2, pr.2, c.2.2)
+
+/-- One iteration of the loop of `_task_success` over the task's groups.
+`(queue, events, new groups, new streams)`. -/
+def successStep (σ : Static) (acc : WQ × List WQEvent × List Nat × List Nat) (g : Nat) :
+    WQ × List WQEvent × List Nat × List Nat :=
+  match alookup acc.1.groupNodes g with
+  | some n =>
+    let n' : GroupNode := { n with pending := n.pending - 1 }
+    let q : WQ := { acc.1 with groupNodes := aset acc.1.groupNodes g n' }
+    if g ∈ q.rootGroups ∧ n'.pending = 0 then
+      let f := finishGroupSuccess σ q g n'
+      (f.1, acc.2.1 ++ f.2.1, acc.2.2.1 ++ f.2.2.1, acc.2.2.2 ++ f.2.2.2)
+    else (q, acc.2.1, acc.2.2.1, acc.2.2.2)
+  | none => acc
+
+/-- `task_node.value = value` -/
+def setTaskValue (q : WQ) (t : Nat) (v : GVal) : WQ :=
+  match alookup q.taskNodes t with
+  | some tn => { q with taskNodes := aset q.taskNodes t { tn with value := some v } }
+  | none => q
 
 /-- `_task_success` -/
 def taskSuccess (σ : Static) (q : WQ) (t : Nat) (r : TResult) : WQ × List WQEvent :=
-  let q := match alookup q.taskNodes t with
-    | some tn => { q with taskNodes := aset q.taskNodes t { tn with value := some r.value } }
-    | none => q
-  let q := (integrateWork σ q r.work (some t)).1
-  let (q, evs, newGroups, newStreams) := (σ.tgroups t).foldl
-    (fun (acc : WQ × List WQEvent × List Nat × List Nat) g =>
-      let (q, evs, ngs, nss) := acc
-      match alookup q.groupNodes g with
-      | some n =>
-        let n := { n with pending := n.pending - 1 }
-        let q := { q with groupNodes := aset q.groupNodes g n }
-        if g ∈ q.rootGroups ∧ n.pending = 0 then
-          let (q, e, cng, cns) := finishGroupSuccess σ q g n
-          (q, evs ++ e, ngs ++ cng, nss ++ cns)
-        else (q, evs, ngs, nss)
-      | none => acc) (q, [], [], [])
-  (startNewWork σ q newGroups newStreams, evs)
+  let q1 := setTaskValue q t r.value
+  let q2 := (integrateWork σ q1 r.work (some t)).1
+  let acc := (σ.tgroups t).foldl (successStep σ) (q2, [], [], [])
+  (startNewWork σ acc.1 acc.2.2.1 acc.2.2.2, acc.2.1)
+
+/-- One iteration of the loop of `_task_failure`. -/
+def failureStep (σ : Static) (acc : WQ × List WQEvent) (g : Nat) : WQ × List WQEvent :=
+  match alookup acc.1.groupNodes g with
+  | some n =>
+    let f := finishGroupFailure σ acc.1 g n
+    (f.1, acc.2 ++ [f.2])
+  | none => acc
 
 /-- `_task_failure` -/
 def taskFailure (σ : Static) (q : WQ) (t : Nat) : WQ × List WQEvent :=
-  let q := { q with taskNodes := aerase q.taskNodes t }
-  (σ.tgroups t).foldl (fun (acc : WQ × List WQEvent) g =>
-    match alookup acc.1.groupNodes g with
-    | some n =>
-      let (q, e) := finishGroupFailure σ acc.1 g n
-      (q, acc.2 ++ [e])
-    | none => acc) (q, [])
+  (σ.tgroups t).foldl (failureStep σ) ({ q with taskNodes := aerase q.taskNodes t }, [])
+
+/-- One iteration of the loop of `_stream_items`: `(queue, values, new groups, new streams)`. -/
+def itemStep (σ : Static) (acc : WQ × List IVal × List Nat × List Nat) (it : IResult) :
+    WQ × List IVal × List Nat × List Nat :=
+  let i := integrateWork σ acc.1 it.work none
+  let pr := pruneEmpty i.1 i.2.1
+  let q := startNewWork σ pr.1 pr.2 i.2.2
+  (q, acc.2.1 ++ [it.value], acc.2.2.1 ++ pr.2, acc.2.2.2 ++ i.2.2)
 
 /-- `_stream_items` -/
 def streamItems (σ : Static) (q : WQ) (s : Nat) (items : List IResult) (stopped : Bool) :
     WQ × List WQEvent :=
-  let (q, values, newGroups, newStreams) := items.foldl
-    (fun (acc : WQ × List IVal × List Nat × List Nat) it =>
-      let (q, values, ngs, nss) := acc
-      let (q, ing, ins) := integrateWork σ q it.work none
-      let (q, ne) := pruneEmpty q ing
-      let q := startNewWork σ q ne ins
-      (q, values ++ [it.value], ngs ++ ne, nss ++ ins)) (q, [], [], [])
-  let ev := WQEvent.streamValues s values newGroups newStreams
+  let acc := items.foldl (itemStep σ) (q, [], [], [])
+  let ev := WQEvent.streamValues s acc.2.1 acc.2.2.1 acc.2.2.2
   if stopped then
-    ({ q with rootStreams := oerase q.rootStreams s,
-              -- the pump resumes, `batches()` returns, `_StreamSuccess` is pushed later
-              deferred := q.deferred ++ [.streamSuccess s] },
+    ({ acc.1 with rootStreams := oerase acc.1.rootStreams s,
+                  -- the pump resumes, `batches()` returns, `_StreamSuccess` is pushed later
+                  deferred := acc.1.deferred ++ [.streamSuccess s] },
       [ev, .streamSuccess s])
-  else (q, [ev])
+  else (acc.1, [ev])
 
 /-- `_handle_graph_event` -/
 def handleGraphEvent (σ : Static) (q : WQ) : GraphEvent → WQ × List WQEvent
@@ -360,11 +383,11 @@ def handleGraphEvent (σ : Static) (q : WQ) : GraphEvent → WQ × List WQEvent
 
 /-- `WorkQueue.__init__`: returns the queue and `(initial_groups, initial_streams)`. -/
 def init (σ : Static) (work : Option Work) : WQ × List Nat × List Nat :=
-  let (q, newGroups, newStreams) := integrateWork σ {} work none
-  let (q, nonEmpty) := pruneEmpty q newGroups
-  let q := { q with rootGroups := nonEmpty.foldl oinsert [],
-                    rootStreams := newStreams.foldl oinsert [] }
-  (q, nonEmpty, newStreams)
+  let i := integrateWork σ {} work none
+  let pr := pruneEmpty i.1 i.2.1
+  let q : WQ := { pr.1 with rootGroups := pr.2.foldl oinsert [],
+                            rootStreams := i.2.2.foldl oinsert [] }
+  (q, pr.2, i.2.2)
 
 /-- The first step of `events()`: start the root groups and streams. -/
 def startRoots (σ : Static) (q : WQ) : WQ :=
@@ -378,16 +401,16 @@ def drain (σ : Static) : Nat → WQ → List WQEvent → WQ × List WQEvent
     match q.channel with
     | [] => (q, acc)
     | e :: rest =>
-      let (q, evs) := handleGraphEvent σ { q with channel := rest } e
-      drain σ fuel q (acc ++ evs)
+      let h := handleGraphEvent σ { q with channel := rest } e
+      drain σ fuel h.1 (acc ++ h.2)
 
 /-- One iteration of the outer loop of `events()` after the consumer was woken: one batch
 (possibly empty, then nothing is yielded). -/
 def batch (σ : Static) (fuel : Nat) (q : WQ) : WQ × List WQEvent :=
-  let (q, evs) := drain σ fuel q []
-  if q.rootGroups.isEmpty ∧ q.rootStreams.isEmpty then
-    ({ q with stopped := true }, evs ++ [.termination])
-  else (q, evs)
+  let d := drain σ fuel q []
+  if d.1.rootGroups.isEmpty ∧ d.1.rootStreams.isEmpty then
+    ({ d.1 with stopped := true }, d.2 ++ [.termination])
+  else d
 
 /-- Run the event loop to quiescence: batches are produced while there is something in the
 channel; when the consumer is parked again the deferred callbacks run (`_push` each). -/
@@ -403,8 +426,8 @@ def settle (σ : Static) (fuel : Nat) : Nat → WQ → List (List WQEvent) → W
         | [] => (q, acc)
         | d => settle σ fuel n (d.foldl push { q with deferred := [] }) acc
       | _ =>
-        let (q, evs) := batch σ fuel q
-        settle σ fuel n q (if evs.isEmpty then acc else acc ++ [evs])
+        let b := batch σ fuel q
+        settle σ fuel n b.1 (if b.2.isEmpty then acc else acc ++ [b.2])
 
 /-- `cancel()` as far as the graph is concerned: which computations / stream queues are
 aborted, in order (`_cancel_group` / `_cancel_task` / `_cancel_stream`). -/
